@@ -9,8 +9,14 @@ from pyvc.types import record
 
 M = 'cell_type_mapper.anndata_iterator.anndata_iterator.'
 
+# the open file as seen by get_batch: dataset name -> stored 2-D matrix (ghost view of the file);
+# `with self.h5_handler as h5_handle` yields that file (h5_handler_manager.__enter__)
+record('H5File', _rest='Dict[Name,Arr2[Real]]')
+record('H5Handler', file='H5File')
+
 for cls in ('CSRRowIterator', 'DenseArrayRowIterator'):
-    record(cls, r0='Int', n_rows='Int', n_cols='Int', row_chunk_size='Int', h5_handle='Opt[Opaque]')
+    record(cls, r0='Int', n_rows='Int', n_cols='Int', row_chunk_size='Int', h5_handle='Opt[Opaque]',
+           h5_handler='H5Handler', data_key='Name')
 
     contract(
         M + cls + '.get_chunk',
@@ -44,3 +50,127 @@ for cls in ('CSRRowIterator', 'DenseArrayRowIterator'):
             " and self.n_cols == old(self.n_cols)",
         ],
     )
+
+
+# ---------------------------------------------------------------------------------------------
+# C05.e  DenseArrayRowIterator.get_batch: the un-sorting loop
+# ---------------------------------------------------------------------------------------------
+from pyvc import ghost as _ghost          # noqa: E402
+from pyvc.symexec import select as _select   # noqa: E402
+
+
+@_ghost.method('H5Handler', '__enter__')
+def _h5_enter(ev, state, node, recv, ref):
+    """`with self.h5_handler as h: ...` binds h to the open file (trusted: h5_handler_manager
+    opens self.h5_path read-only and returns the h5py.File)"""
+    return _select(recv, ('fld', 'file'))
+
+
+class _NativeDense:
+    """native stand-in for `self`: the fields the clauses read; the real iterator (and its file)
+    is built inside the call and removed again (h5py handles cannot be deep-copied by the runner)"""
+
+    def __init__(self, x, h5_chunks, row_chunk_size, keep_open):
+        from pyvc.native import Rec
+        self.h5_chunks, self.row_chunk_size, self.keep_open = h5_chunks, row_chunk_size, keep_open
+        self.n_rows, self.n_cols = x.shape
+        self.data_key = 'X'
+        self.h5_handler = Rec(file={'X': x})
+
+    def __repr__(self):
+        return f"<dense {self.n_rows}x{self.n_cols} {self.h5_handler.file['X'].tolist()} chunks={self.h5_chunks}>"
+
+
+def _gen_batch(rng, size):
+    import numpy as np
+    n_rows, n_cols = rng.randint(1, size + 2), rng.randint(1, size + 1)
+    x = np.array([[float(rng.randint(0, 9)) for _ in range(n_cols)] for _ in range(n_rows)])
+    k = rng.randint(0, n_rows)
+    rows = rng.sample(range(n_rows), k)
+    return dict(self=_NativeDense(x, (rng.randint(1, n_rows), rng.randint(1, n_cols)),
+                                  rng.randint(1, n_rows + 1), rng.random() < 0.5),
+                row_idx=rows, sparse=rng.random() < 0.4)
+
+
+def _call_batch(self, row_idx, sparse):
+    import os
+    import shutil
+    import tempfile
+    import h5py
+    from cell_type_mapper.anndata_iterator.anndata_iterator import DenseArrayRowIterator
+    d = tempfile.mkdtemp(prefix='pyvc_get_batch_', dir='/tmp')
+    it = None
+    try:
+        path = os.path.join(d, 'x.h5')
+        with h5py.File(path, 'w') as f:
+            f.create_dataset('X', data=self.h5_handler.file['X'], chunks=self.h5_chunks)
+        it = DenseArrayRowIterator(path, row_chunk_size=self.row_chunk_size,
+                                   array_shape=(self.n_rows, self.n_cols), keep_open=self.keep_open)
+        return it.get_batch(row_idx, sparse=sparse)
+    finally:
+        if it is not None:
+            it.h5_handler.close()
+        shutil.rmtree(d, ignore_errors=True)
+
+
+contract(
+    M + 'DenseArrayRowIterator.get_batch',
+    properties=['C05'], self_type='DenseArrayRowIterator',
+    assumptions=['T-H5READ: h5py `dataset[idx, :]` with a strictly increasing in-range index list '
+                 'returns exactly the stored rows idx (for every chunk layout and dtype); '
+                 'scipy.sparse.csr_matrix(dense) denotes the same matrix'],
+    native=dict(gen=_gen_batch, call=_call_batch),
+    params=dict(row_idx='List[Int]', sparse='Bool'),
+    returns='Arr2[Real]',
+    locals={'__zeros_elem__': 'Real'},
+    requires=[
+        "self.data_key in self.h5_handler.file",
+        "self.h5_handler.file[self.data_key].shape[0] == self.n_rows",
+        "self.h5_handler.file[self.data_key].shape[1] == self.n_cols",
+        "all(0 <= row_idx[k] < self.n_rows for k in range(len(row_idx)))",
+        # S-3: a repeated row is refused by h5py (index lists must be strictly increasing)
+        "dupfree(row_idx)",
+        # S-EMPTY (finding, new): an empty row list makes np.array([]) a float64 array, which h5py refuses
+        # (TypeError: Indexing arrays must have integer dtypes); the CSR path fails too
+        # (merge_index_list: IndexError).  Reported, not assumed away silently.
+        "len(row_idx) >= 1",
+    ],
+    inline_asserts={
+        # pre-condition of the h5py fancy read that follows
+        'sorted_row_idx = sorted_row_idx[meta_sort]': ["sorted_strict(sorted_row_idx)"],
+    },
+    ensures=[
+        # the requested rows, in the requested order, with the stored values
+        "result.shape[0] == len(row_idx) and result.shape[1] == self.n_cols",
+        "all(result[k, c] == self.h5_handler.file[self.data_key][row_idx[k], c] "
+        "for k in range(len(row_idx)) for c in range(self.n_cols))",
+    ],
+    loops={0: [
+        "output.shape[0] == raw.shape[0] and output.shape[1] == raw.shape[1]",
+        "all(output[meta_sort[q], c] == raw[q, c] for q in range(_i) for c in range(raw.shape[1]))",
+    ]},
+)
+
+
+# ---------------------------------------------------------------------------------------------
+# S-12  AnnDataRowIterator._initialize_as_csc: definite assignment of `attrs`
+# When the scratch volume has too little free space the function is meant to raise RuntimeError
+# with a message that quotes `attrs` - but `attrs` is only bound on the other branch, so the
+# caller saw UnboundLocalError instead (reproduced natively with os.statvfs patched to report no
+# free blocks).  Fixed in /repo by 56239b0 (attrs are read before the free-space test).  The slice
+# tracks the branch variables only; since the fix `attrs` is bound on every path, so the
+# definite-assignment check is decided while the VCs are generated and no obligation is left
+# (min_obligations=0); reverting the fix brings back the refuted obligation
+# `UnboundLocalError: attrs is assigned`.
+# ---------------------------------------------------------------------------------------------
+contract(
+    M + 'AnnDataRowIterator._initialize_as_csc',
+    properties=['C05'],
+    mode='slice', unexpected_exceptions='allowed',
+    tracked=['write_as_csr', 'attrs', 'free_bytes', 'file_size_bytes', 'fudge_factor'],
+    params=dict(row_chunk_size='Int', keep_open='Bool'),
+    locals=dict(free_bytes='Int', file_size_bytes='Int'),
+    raises={'RuntimeError': True},
+    min_obligations=0,
+    note="S-12 (fixed by 56239b0): UnboundLocalError (attrs) instead of RuntimeError when free space is insufficient",
+)
